@@ -146,6 +146,11 @@ impl Check {
                     rec.panic.as_deref().unwrap_or("?"),
                     rec.labels
                 )
+            } else if kind == "memory-runaway" {
+                format!(
+                    "the process grew past its memory cap while a task poll of the endpoint had not returned for seconds (an endless loop that allocates); the exploration was aborted after {execs} executions; events so far {:?}",
+                    rec.labels
+                )
             } else {
                 format!(
                     "a task poll of the endpoint did not return within the watchdog limit (an endless loop inside one poll): the execution cannot continue and the exploration was aborted after {execs} executions; events so far {:?}",
